@@ -697,7 +697,8 @@ def _iterdsl_programs(run, path, name, limit=None, seed=1, alt_sources=False, de
                 return hrec["got_konst"] == exp
             ps.add(hbody, "K:" + hexp, hrec, accept=haccept)
         # other spellings of the adapter closures (typed parameter / return type / function path), rotated over the chains
-        if alt_sources and r["chain"] and k_line % 2 == 1 and any(a["k"] in ("filter", "map", "filter_map", "flat_map", "skip_while", "take_while") for a in r["chain"]):
+        if alt_sources and k_line % 2 == 1 and (r["cons"] in ("all", "any", "position", "rposition", "find", "rfind", "find_map", "fold", "rfold")
+                                                or any(a["k"] in ("filter", "map", "filter_map", "flat_map", "skip_while", "take_while") for a in r["chain"])):
             mode = 1 + (k_line // 2) % 3
             sc = gi.case(r, spell=mode)
             if sc is not None and sc[0] != body:
